@@ -205,6 +205,22 @@ def width(ctx, rep, rule):
                     key = "%s|cast %s->%s#%d" % (body.path, facts.types[st["rv"]["from"]]["s"], facts.types[st["rv"]["to"]]["s"], blk.idx)
                     rep.check(rule, key, widening, "widening", "a narrowing or sign-changing cast on the value decode path loses bits of the value",
                               body.loc(st["line"]), obligation=True)
+                    # a two's-complement INTEGER must not pass through an unsigned intermediate wider than one octet: widening it
+                    # to the signed result zero-extends (0xFFFFFFFF becomes 4294967295, not -1)
+                    if widening and "<ber::int::SnmpInt as " in own and not fs and ts and fb > 8:
+                        rep.violation(rule, key + "|zero-extension", "the signed INTEGER decoder widens an unsigned %d-bit intermediate to %s: negative values "
+                                      "of that width are zero-extended instead of sign-extended" % (fb, facts.types[st["rv"]["to"]]["s"]), body.loc(st["line"]),
+                                      obligation=True)
+    # the numeric decoders are total: whatever the length, they fold the octets and return Ok (over-long encodings with
+    # leading zero octets - mandatory for unsigned values with the top bit set - are values, not errors)
+    for path, tyname, _ in NUMERIC:
+        db = facts.body("<%s as ber::BerDecoder<'a>>::decode" % path)
+        if db is None:
+            continue
+        errs = flow.blocks_assigning_return(db, lambda rv: rv["k"] == "agg" and rv.get("vname") == "Err")
+        rep.check(rule, "%s::decode|total" % path, not errs, "no error exit", "the %s decoder rejects some contents (an error exit was added): "
+                  "encodings such as a 5-octet unsigned value with a leading zero octet would be refused" % path.split("::")[-1],
+                  db.loc(db.blocks[errs[0]].stmts[0].get("line") if errs and db.blocks[errs[0]].stmts else None), obligation=True)
     for path, tyname, _ in NUMERIC:
         t = facts.adts.get(path)
         if t is None:
@@ -585,6 +601,17 @@ def oid_text(ctx, rep, rule):
         u32 = any(any("u32" in str(b.term["callee"].get("args")) for b in c.calls() if (callee_path(b.term) or "").endswith("str>::parse")) for c in cl)
         rep.check(rule, "OidSubelementIterator::next|parse", okp and u32, "each arc is parsed as u32, failures become InvalidData",
                   "arc parsing no longer reports failures / is not u32", it.loc(), obligation=True)
+        # every part between two dots reaches the parser: an empty part (leading, trailing or doubled dot) and a part with
+        # spaces or a sign must fail there, so nothing may skip, filter or trim parts on the way
+        lax = ("find", "filter", "filter_map", "skip_while", "skip", "step_by", "trim", "trim_start", "trim_end", "trim_matches", "trim_start_matches",
+               "trim_end_matches", "strip_prefix", "strip_suffix", "is_empty", "split_terminator", "split_whitespace", "rsplit", "unwrap_or", "unwrap_or_default")
+        newb = facts.body("ber::objectid::OidSubelementIterator::<'a>::new")
+        scope_b = [it] + cl + ([newb] if newb is not None else []) + (facts.closures_of(newb.path) if newb is not None else [])
+        bad_calls = sorted({(callee_path(b.term) or "").split("::")[-1] for bb in scope_b for b in bb.calls()
+                            if (callee_path(b.term) or "").split("::")[-1] in lax})
+        rep.check(rule, "OidSubelementIterator|every-part-parsed", not bad_calls, "split parts go to the parser unfiltered",
+                  "the tokenizer applies %s to the parts of the string: malformed OID text (empty arcs, padding) is accepted and another OID is sent" % bad_calls,
+                  it.loc(), obligation=True)
     # every `?` on an arc propagates: no arc result is defaulted
     bad = [b for b in body.calls() if (callee_path(b.term) or "").split("::")[-1] in ("unwrap_or", "unwrap_or_default", "ok", "unwrap_or_else")]
     rep.check(rule, "SnmpOid::try_from(&str)|errors-propagated", not bad, "no defaulted arc", "an arc parse error is replaced by a default value",
@@ -605,6 +632,46 @@ def oid_entry(ctx, rep, rule):
                 found.add(w)
     rep.check(rule, "SnmpOid::try_from(&str)|callers", found == want, "get, get_many and the walk iterator parse their OIDs",
               "OID text is parsed in %s" % owners, obligation=True)
+    # a parse failure is an error of the operation: the Result of every conversion is propagated (`?` on it, or on the
+    # collect::<Result<..>>() of a map over it), never dropped (flat_map / filter_map / ok() / unwrap_or)
+    for b_, blk in sites:
+        owner = b_
+        prov_ = flow.Prov(b_)
+        key = "SnmpOid::try_from(&str)|error propagated in %s" % b_.path.split(" as ")[0][-60:]
+        okp = False
+        why = ""
+        if b_.kind != "Closure":
+            fe = flow.failure_edges(b_, prov_, lambda t: t[0] == "call" and (t[1] or "") == conv)
+            errs_ = set(flow.blocks_assigning_return(b_, lambda rv: rv["k"] == "agg" and rv.get("vname") == "Err")) | \
+                {x.idx for x in b_.calls() if (callee_path(x.term) or "").endswith("from_residual")}
+            oks_ = set(flow.blocks_assigning_return(b_, lambda rv: rv["k"] == "agg" and rv.get("vname") == "Ok"))
+            for sw_, t_, fails in fe:
+                after = cells.feasible_from(b_, fails) if fails else set()
+                if fails and (after & errs_) and not (after & oks_):
+                    okp = True
+            why = "the Result of the conversion is not tested / its failure does not end the operation with an error"
+        else:
+            par = facts.body(b_.parent) if b_.parent else None
+            if par is not None:
+                pp_ = flow.Prov(par)
+
+                def is_collect_of_map(t, path_=b_.path):
+                    if not (t[0] == "call" and (t[1] or "").endswith("::collect")):
+                        return False
+                    maps = [x for x in flow.subterms(t) if x[0] == "call" and (x[1] or "").split("::")[-1] in ("map",) and len(x[2]) == 2 and
+                            any(y[0] == "agg" and y[1] == "closure" and y[2] == path_ for y in flow.subterms(x[2][1]))]
+                    bad_ = [x for x in flow.subterms(t) if x[0] == "call" and (x[1] or "").split("::")[-1] in ("flat_map", "filter_map", "flatten", "map_while")]
+                    return bool(maps) and not bad_
+                fe = flow.failure_edges(par, pp_, is_collect_of_map)
+                errs_ = set(flow.blocks_assigning_return(par, lambda rv: rv["k"] == "agg" and rv.get("vname") == "Err")) | \
+                    {x.idx for x in par.calls() if (callee_path(x.term) or "").endswith("from_residual")}
+                for sw_, t_, fails in fe:
+                    after = cells.feasible_from(par, fails) if fails else set()
+                    if fails and (after & errs_):
+                        okp = True
+                owner = par
+                why = "the conversions run in a closure whose Results are not collected into a Result and propagated (errors of single OIDs are dropped)"
+        rep.check(rule, key, okp, "failure ends the operation with the error", why, owner.loc(blk.term["line"]), obligation=True)
     for fn in ("send_request", "send_and_recv"):
         body = facts.body("socket::snmpsocket::SnmpSocket::" + fn)
         if body is None:
@@ -717,3 +784,42 @@ def oid_print(ctx, rep, rule):
     if n == 0:
         rep.inconclusive(rule, "String::try_from(&SnmpOid)|probe", "the first write!() of two values was not found: the conversion was restructured and "
                          "the arc relation is not decided", body.loc())
+
+
+def list_loops(ctx, rep, rule):
+    """The varbind / OID list loops of the three PDU parsers run until the list is used up: the loop is left for the code
+    that builds the PDU only across the `is_empty()` edge of the list remainder.  An exit on any other condition (a `break`
+    on a decoding problem, a count limit) accepts a PDU although octets of its varbind list were not decoded."""
+    facts = ctx.facts
+    n = 0
+    for name, what in TRAILING[4:]:
+        body = facts.body(name)
+        if body is None:
+            rep.missing(rule, name)
+            continue
+        prov = flow.Prov(body)
+        loops = cfg.natural_loops(body)
+        oks = set(flow.blocks_assigning_return(body, lambda rv: rv["k"] == "agg" and rv.get("vname") == "Ok"))
+        gs = {(g.block): g for g in flow.guards(body, prov)}
+        short = name.split(" as ")[0].lstrip("<")
+        for h, blocks in loops.items():
+            # only loops that parse (call a from_ber) are list loops
+            if not any((callee_path(b.term) or "").endswith("::from_ber") or (callee_path(b.term) or "").endswith("::parse_var") for b in body.calls() if b.idx in blocks):
+                continue
+            n += 1
+            bad = []
+            for u in sorted(blocks):
+                for v in body.blocks[u].succs():
+                    if v in blocks or body.blocks[v].cleanup:
+                        continue
+                    if not (cfg.reachable(body, [v]) & oks):
+                        continue   # error exit
+                    g = gs.get(u)
+                    okx = g is not None and g.term[0] == "call" and (g.term[1] or "").endswith("::is_empty") and (u, v) == g.true_edge
+                    if not okx:
+                        bad.append((u, v))
+            rep.check(rule, "%s|list loop#%d runs to the end of the list" % (short, h), not bad, "left only when the remainder is empty",
+                      "the loop over the %s's list can be left with undecoded octets remaining (exit edges %s): a truncated or malformed list is "
+                      "accepted as a shorter one" % (what, bad), body.loc(body.blocks[h].term.get("line")), obligation=True)
+    if n < 2:
+        rep.violation(rule, "floor", "only %d list loops found in the PDU parsers, floor is 2" % n)
